@@ -74,6 +74,33 @@ def model_strategy(draw, quick):
                       armature=mg.fmt(draw(mg.num(0.0001, 0.01, 4))))
     gm.xml = ET.tostring(root, encoding='unicode')
     gm.info['labels'] = sorted(set(gm.info['labels']) | {'simple-body-with-actuator-armature'})
+  # reach: a spatial tendon with armature on a 2-link chain appended after the other bodies (its dof chain does not start at
+  # dof 0), from a world site to the tip, with sparse Jacobians -> exercises the sparse, chain-compressed paths of
+  # mj_tendon / mj_tendonDot / mj_tendonArmature
+  if draw(st.integers(0, 2)) == 0:
+    import xml.etree.ElementTree as ET
+    root = ET.fromstring(gm.xml)
+    wb = root.find('worldbody')
+    ET.SubElement(wb, 'site', name='tw', pos=mg.fmt([draw(mg.num(-0.5, 0.5)) for _ in range(3)]))
+    def axis():
+      a = [draw(st.integers(-2, 2)) for _ in range(3)]
+      return mg.fmt(a if any(a) else [0, 1, 0])
+    l1 = ET.SubElement(wb, 'body', name='tl1', pos=mg.fmt([draw(mg.num(-0.5, 0.5)) for _ in range(3)]))
+    ET.SubElement(l1, 'joint', name='tj1', type=draw(st.sampled_from(['hinge', 'slide', 'ball'])), axis=axis())
+    ET.SubElement(l1, 'geom', type='capsule', size='0.04 0.15', pos='0.1 0 0', contype='0', conaffinity='0')
+    l2 = ET.SubElement(l1, 'body', name='tl2', pos=mg.fmt([draw(mg.num(0.1, 0.4)), draw(mg.num(-0.2, 0.2)), draw(mg.num(-0.2, 0.2))]))
+    ET.SubElement(l2, 'joint', name='tj2', type=draw(st.sampled_from(['hinge', 'hinge', 'slide'])), axis=axis(),
+                  pos=mg.fmt([draw(mg.num(-0.1, 0.1)) for _ in range(3)]))
+    ET.SubElement(l2, 'geom', type='box', size='0.05 0.08 0.12', pos='0 0.1 0', contype='0', conaffinity='0')
+    ET.SubElement(l2, 'site', name='tt', pos=mg.fmt([draw(mg.num(-0.2, 0.2)) for _ in range(3)]))
+    ten = root.find('tendon')
+    if ten is None:
+      ten = ET.SubElement(root, 'tendon')
+    ET.SubElement(ten, 'spatial', name='tarm', armature=mg.fmt(draw(mg.num(0.02, 0.5)))).extend(
+        [ET.Element('site', site='tw'), ET.Element('site', site='tt')])
+    root.find('option').set('jacobian', draw(st.sampled_from(['sparse', 'sparse', 'dense'])))
+    gm.xml = ET.tostring(root, encoding='unicode')
+    gm.info['labels'] = sorted(set(gm.info['labels']) | {'late-chain-tendon-armature'})
   return gm
 
 
@@ -187,7 +214,7 @@ def main(ck):
     S = kin.snap(m)
     k = kin.fk(S, np.array(d.qpos))
     qvel = np.array(d.qvel)
-    labels = gs.brief(gm.labels(), ('armature:free', 'tendon:', 'simple-body')) + gs.classify(lib, m)
+    labels = gs.brief(gm.labels(), ('armature:free', 'tendon:', 'simple-body', 'late-chain')) + gs.classify(lib, m)
 
     # ---- (a) M: symmetric, SPD, equals the reference
     M = lib.fullM(m, d)
